@@ -205,6 +205,7 @@ class NodeWorld:
         cs = sk.FakeSocket()
         cs.peer_name = (ip, port)
         cs.kind = "accepted"
+        cs.in_backlog = True        # holds no descriptor number of the node's process until accept() returns it
         self.world.listeners[0].backlog.append(cs)
         self.clients.append(cs)
         self.world.obs("env_accept", cs.sid)
